@@ -5,9 +5,9 @@ VERIF = os.path.dirname(os.path.abspath(__file__))
 
 CHECKS = {
  # id: (level category, technique, level text, level note, design ref)
- "C01": ("exploration", "property-based testing against a sorted-set reference model (proptest, regime-directed generators) + complete small-scope enumeration",
-         "Every query of the plain bitvector is compared with an independent sorted-set model on generated bit sequences that are directed at the internal regimes (short/long select superblocks for ones and zeros, partial words/blocks, many superblocks), built through 9 public routes; every bit string up to length 12 (16 thorough) is enumerated with every argument. Held-on-everything-explored, not a proof.",
-         "Trusts the reference model (binary search on a sorted position list) and rustc; vectors limited to 140k bits quick / 2M bits thorough; above 20k bits arguments are structural edges + sampled.", "DESIGN.md §3 C01"),
+ "C01": ("exploration", "property-based testing against a sorted-set reference model (proptest, regime-directed generators) + complete small-scope enumeration + piecewise periodic vectors beyond 2^32 bits against a closed-form model",
+         "Every query of the plain bitvector is compared with an independent sorted-set model on generated bit sequences that are directed at the internal regimes (short/long select superblocks for ones and zeros, partial words/blocks, many superblocks), built through 11 public routes; every bit string up to length 12 (16 thorough) is enumerated with every argument; 1 (3 thorough) piecewise periodic vectors of 2^32..2^33 bits per build configuration are compared with closed formulas around zone edges and 2^31/2^32/2^33. Held-on-everything-explored, not a proof.",
+         "Trusts the reference model (binary search on a sorted position list) and rustc; generated vectors limited to 450k bits quick / 2M bits thorough; above 20k bits arguments are structural edges + sampled.", "DESIGN.md §3 C01"),
  "C08": ("exploration", "program-level property-based testing (generated call programs with arbitrary arguments over an object heap) under process-level monitors (std unsafe-precondition checks, signals) with per-case worker isolation; coverage-guided libFuzzer+ASan campaign of the same interpreter in the thorough tier",
          "Generated programs call every safe entry point of every structure with arbitrary arguments (tail offsets, extreme indexes, arbitrary iterator scripts, arbitrary builder sequences, stale supports, reloads, mapped views at structure starts / outside the file / on truncated files). Panics are legal; the process must survive with every unchecked slice access checked against the slice length by the standard library's precondition checks, under release arithmetic and under overflow checks; mapped views must lie inside the map.",
          "The monitor sees accesses outside a slice, not logically-wrong accesses inside one; unsafe fns are called only within their contracts; allocation sizes are bounded.", "DESIGN.md §3 C08"),
@@ -17,19 +17,19 @@ CHECKS = {
  "C09": ("exploration", "property-based testing with extreme-argument generators against the documented out-of-range answers and the reference models, three-type differential, in two arithmetic configurations with per-case process isolation",
          "Every query of the three bitvector types, of huge sparse / run-length vectors, of the wavelet matrix and its core is asked at {0,1,len-1,len,len+1,2len,count+-1,2^63,MAX-1,MAX,...} and must give the documented answer without panicking; nth/nth_back beyond the remainder must exhaust fresh, partly consumed and positioned iterators; constructors must accept exactly the valid widths. Run with overflow checks on (a wrapped addition is a panic) and with release arithmetic + std unsafe-precondition checks (a wrapped addition is a wrong answer or an abort), each case in a worker process.",
          "Trusts the reference models; get() is not called out of range (documented as may-panic); allocation-sizing arguments are kept small.", "DESIGN.md §3 C09"),
- "C10": ("exploration", "model-based property testing of iterator call histories against a VecDeque of the reference sequence + complete enumeration of short call sequences on all tiny bit strings",
+ "C10": ("exploration", "model-based property testing of iterator call histories against a VecDeque of the reference sequence + complete enumeration of short call sequences on all tiny bit strings; coverage-guided libFuzzer+ASan campaign of the same interpreter in the thorough tier",
          "35 iterator kinds (all three bitvector types incl. positioned iterators, multisets, integer vectors incl. mapped, wavelet matrix) are driven with generated histories of next/next_back/nth/nth_back/clone; every return value and every len() is compared with a deque model, the rest is drained, exhaustion is re-checked. All 5461 sequences of length <= 6 on all 127 bit strings of length <= 6 for the double-ended iterators.",
          "Structures are small so that every iterator is drained completely; back calls only where DoubleEndedIterator is implemented.", "DESIGN.md §3 C10"),
  "C11": ("exploration", "metamorphic/differential property testing: conversion chains and builder decompositions must all give equal, byte-identical structures + enumeration of all tiny strings x type pairs",
          "For generated bit sequences, the end of every conversion chain (From / copy_bit_vec, length 1..3) must hold the source's bits and be == and byte-identical to the target type's own builder output built by another route; all run-length builder decompositions of one run list must agree.",
          "Sets only (multisets not claimed); plain bitvectors compared without supports.", "DESIGN.md §3 C11"),
- "C12": ("exploration", "differential property testing of the file writers against the in-memory serialization over generated widths, buffer sizes, push histories and endings",
+ "C12": ("exploration", "differential property testing of the file writers against the in-memory serialization over generated widths, buffer sizes, push histories and endings; coverage-guided libFuzzer+ASan campaign of the same check in the thorough tier",
          "Files left by IntVectorWriter / RawVectorWriter for generated (width, buffer size incl. 0 / sub-item / exact-data, push and extend history, ending in close / close twice / drop / close then drop) must be byte-identical to serializing the equivalent in-memory vector; len() tracks pushes; second close is a no-op.",
          "A raw writer with a parent header is closed through close_with_header as a parent would; flush bookkeeping only labels classes.", "DESIGN.md §3 C12"),
  "C15": ("exploration", "property-based testing against a sorted-Vec multiset model + complete small-scope enumeration + accept/reject differential for try_from_iter",
          "Multiset sparse vectors (duplicates at 0, at the last position, at bucket edges, long duplicate runs, overfull lists, huge universes) built by four routes are compared with a sorted-Vec model for every present-value query and for the set-bit and bit iterators in both directions and generated interleavings; try_from_iter must accept exactly the non-decreasing sequences.",
          "Zero-side queries are not asserted (documented as not working for multisets).", "DESIGN.md §3 C15"),
- "C16": ("exploration", "model-based (stateful) property testing of builder call histories against model state machines, with a shadow builder that only sees accepted calls",
+ "C16": ("exploration", "model-based (stateful) property testing of builder call histories against model state machines, with a shadow builder that only sees accepted calls; coverage-guided libFuzzer+ASan campaign of the same interpreter in the thorough tier",
          "Generated histories of valid and invalid calls on SparseBuilder and RLBuilder are interpreted against models: acceptance must match, every observer must equal the model after every call, conversion succeeds iff allowed, and the resulting vector must hold exactly the accepted positions and equal the vector of a shadow builder that never saw the rejected calls.",
          "Unsafe *_unchecked calls only inside their contracts; try_set(start<len, 0) may answer either way.", "DESIGN.md §3 C16"),
  "C18": ("exploration", "property-based testing of map/drop cycles with a process-level monitor (/proc/self/maps, std unsafe-precondition checks) in per-shard worker processes",
@@ -50,15 +50,15 @@ CHECKS = {
  "C02": ("exploration", "property-based testing against a sorted-set reference model that also covers universes up to 2^64-1 (proptest, width-directed generators) + complete small-scope enumeration",
          "Sparse vectors built by 8 public routes from generated (n, positions) - directed at every low width 1..63, bucket edges, dense clusters that give the high bitvector long select superblocks, universes to 2^64-1 - are compared query by query with a binary-search model; all routes must give equal vectors; all subsets of universes up to 10 (13) elements are enumerated with every argument.",
          "Trusts the sorted-set model; nearly empty sets are explored only where the bucket array (n/2^w bits) can be allocated (<= 2^27 bits); large universes are queried at edges/neighbourhoods/generated arguments.", "DESIGN.md §3 C02"),
- "C03": ("exploration", "property-based testing against a run-list reference model (prefix sums, usize::MAX-long vectors) + complete small-scope enumeration",
+ "C03": ("exploration", "property-based testing against a run-list reference model (prefix sums, usize::MAX-long vectors) + complete small-scope enumeration; coverage-guided libFuzzer+ASan campaign of the same check in the thorough tier",
          "Run-length vectors built through the builder (runs split into adjacent pieces, unchecked variants, per-bit, with/without set_len) or by conversion are compared query by query and run by run (run_iter with offset/rank/rank_zero) with a run-list model, with generators directed at 1..22 code units per value, 1/8/9/10/100+ blocks, blocks closed early, a first block without unset bits, and lengths beyond 2^63.",
          "Trusts the run-list model and the harness's block-packing simulation used only for class labels; long vectors are queried at run edges and sampled arguments.", "DESIGN.md §3 C03"),
  "C04": ("exploration", "property-based testing against a naive Vec<u64> reference (positions per value, stable sort by reversed bits) + complete small-scope enumeration",
          "Wavelet matrices from all five item types over widths 1..16 (core: 1..64), lengths 0/1/2^k/.., seven value distributions incl. single-symbol, missing symbols and outliers, are compared with a naive model for every (index, rank, value) incl. absent and out-of-alphabet values and extreme arguments; the core mapping is compared with the stable sort by reversed bits.",
          "Trusts the naive model; alphabets limited to 2^16 for the matrix; vectors above 300 items use sampled indexes.", "DESIGN.md §3 C04"),
- "C05": ("exploration", "model-based (stateful) property testing: generated operation histories interpreted against a Vec<bool> / (width, Vec<u64>) model with full state comparison after every step",
+ "C05": ("exploration", "model-based (stateful) property testing: generated operation histories interpreted against a Vec<bool> / (width, Vec<u64>) model with full state comparison after every step; coverage-guided libFuzzer+ASan campaign of the same interpreter in the thorough tier",
          "Every step of every generated history over RawVector and IntVector is followed by a comparison of length, every backing word (so stale bits beyond the end are visible), count_ones, reads, and equality + byte-identical serialization with vectors rebuilt from the model by two other routes.",
-         "Trusts the bit-by-bit model; vectors stay small (<= ~25k bits / 300 items) so that complete comparison after each step is affordable; capacity is not asserted.", "DESIGN.md §3 C05"),
+         "Trusts the bit-by-bit model; vectors stay small (<= ~25k bits / 300 items) so that complete comparison after each step is affordable, except 3 (9 thorough) periodic vectors beyond 2^32 bits per configuration that are compared with closed formulas; capacity is not asserted.", "DESIGN.md §3 C05"),
  "C07": ("exploration", "differential testing against an independent codec written only from SERIALIZATION.md (decoder + encoder), both directions, plus byte identity where the document leaves no choice",
          "The library's bytes for generated structures of every documented type are decoded by the harness's own codec and must give the generator's model content while satisfying the document's requirements; the codec's own encodings (supports absent, any admissible sparse low width, any sufficient sample width) must load and answer every query per the reference models; codec bytes must equal library bytes with supports stripped wherever the document leaves no choice, which exposes changes made symmetrically to serialize and load.",
          "Trusts the harness codec as a faithful reading of the document; support structures are opaque; sparse w=64 and multiset loading are excluded (see assumptions).", "DESIGN.md §3 C07"),
